@@ -47,7 +47,7 @@ def correspondence(ctx):
     rng = np.random.default_rng(ctx.seed)
     d = ctx.driver
     zs = z_cover(rng, ctx.tier)
-    configs = [(16, 1.0), (32, 2.0)] if ctx.tier == "quick" else [(16, 1.0), (32, 2.0), (16, 2.0), (64, 1.0), (8, 0.5)]
+    configs = [(16, 1.0), (32, 2.0), (15, 1.0)] if ctx.tier == "quick" else [(16, 1.0), (32, 2.0), (16, 2.0), (64, 1.0), (8, 0.5), (15, 1.0), (33, 2.0)]
     dts = [0.1, 1.0] if ctx.tier == "quick" else [1e-3, 0.1, 1.0, 7.5]
     for order in [0] + ORDERS:
         for (M, r) in configs:
@@ -311,7 +311,7 @@ def oracle(ctx, deep):
                               "probe": "phi", "args": {"order": order, "z": [z.real, z.imag]}, "observed": r})
                 break
         # non-default contours: the coefficients are the same phi-combinations whatever circle they are integrated over
-        for (M, rad) in ((32, 2.0), (16, 0.5), (64, 1.0)):
+        for (M, rad) in ((32, 2.0), (16, 0.5), (64, 1.0), (15, 1.0), (33, 1.0), (25, 2.0)):   # even and ODD node counts
             hit = False
             for z in (0.0, -1.0, -40.0, 1.0j, -3.0j, 30.0j, -2.0 + 5.0j, 1e-5, -1e3 + 1e3j):
                 z = complex(z)
